@@ -2,7 +2,7 @@
    stats part is appended below the chain part). *)
 From Coq Require Import List ZArith Bool Lia.
 Import ListNotations.
-From Goat Require Import Model.Chain.
+From Goat Require Import Model.Chain Model.Stats.
 Open Scope Z_scope.
 
 (* ---- interceptor programs ---- *)
@@ -88,7 +88,7 @@ Definition cres_eqb (x y : cres) : bool :=
   zlist_eqb r r' && Z.eqb e e' && list_eqb cev_eqb l l'.
 
 (* property predicates on the observed log alone *)
-Definition is_plain (b : beh) : bool :=
+Definition beh_plain (b : beh) : bool :=
   match b with Short _ => false | Twice => false | _ => true end.
 
 Definition count_pre (j : Z) (l : list cev) : nat :=
@@ -105,7 +105,7 @@ Definition stage_of (e : cev) : Z :=
   match e with EPre j _ _ => j | EPost j _ _ => - j | EHandler _ _ => 0 end.
 
 Definition spec_once (bs : list beh) (l : list cev) : bool :=
-  if forallb is_plain bs then
+  if forallb beh_plain bs then
     let n := Z.of_nat (length bs) in
     let js := map fst (number 1 bs) in
     zlist_eqb (map stage_of l) (js ++ [0] ++ map Z.opp (rev js))
@@ -142,6 +142,67 @@ Definition e2e_stream (use_nest : bool) (cbeh : option beh) (bs : list beh) (her
     let '(_, e, sl) := srv_part use_nest true bs herr (mkArg cctx []) in ([], e, cl ++ sl)
   else ([], ce, cl).
 
+(* ---- stats: one RPC as seen by one handler ---- *)
+Inductive sexit :=
+| XCU (x : cu_exit)
+| XCS (o : cs_open) (ops : list cs_op)
+| XSU (x : su_exit)
+| XSS (x : ss_exit).
+
+Definition model_events (x : sexit) : list sev :=
+  match x with
+  | XCU x => cu_events x
+  | XCS o ops => cs_events o ops
+  | XSU x => su_events x
+  | XSS x => ss_events x
+  end.
+
+Definition sev_eqb (a b : sev) : bool :=
+  match a, b with
+  | TagRPC, TagRPC | Begin, Begin | OutHeader, OutHeader | OutPayload, OutPayload
+  | InHeader, InHeader | InPayload, InPayload | OutTrailer, OutTrailer => true
+  | End x, End y => Bool.eqb x y
+  | _, _ => false
+  end.
+
+Definition refused (x : sexit) : bool :=
+  match x with XSU SU_bad_metadata | XSS SS_bad_metadata => true | _ => false end.
+Definition client_stream (x : sexit) : bool := match x with XCS _ _ => true | _ => false end.
+
+Definition ev_is_end (e : sev) : bool := match e with End _ => true | _ => false end.
+Definition ev_plain (e : sev) : bool := match e with TagRPC | Begin | End _ => false | _ => true end.
+
+(* property predicates on the observed list alone.
+   shape: tagging call, one Begin first, nothing but plain events up to the End;
+   a finished RPC has exactly one End; after it nothing (client streams: only
+   OutTrailer events of late CloseSend calls); an unfinished one has none *)
+Fixpoint after_begin (late_trailers finished : bool) (l : list sev) : bool :=
+  match l with
+  | [] => negb finished
+  | End _ :: rest => finished && forallb (fun e => match e with OutTrailer => late_trailers | _ => false end) rest
+  | e :: rest => ev_plain e && after_begin late_trailers finished rest
+  end.
+
+Definition spec_shape (x : sexit) (finished : bool) (obs : list sev) : bool :=
+  match obs with
+  | [] => refused x
+  | TagRPC :: Begin :: rest => negb (refused x) && after_begin (client_stream x) finished rest
+  | _ => false
+  end.
+
+(* End.Error is nil iff the RPC succeeded at that role *)
+Definition spec_end (succ : bool) (obs : list sev) : bool :=
+  forallb (fun e => match e with End b => Bool.eqb b succ | _ => true end) obs.
+
+(* connection events *)
+Definition conn_eqb (a b : Stats.cev) : bool :=
+  match a, b with
+  | TagConn, TagConn => true
+  | ConnBegin x, ConnBegin y => Bool.eqb x y
+  | ConnEnd x, ConnEnd y => Bool.eqb x y
+  | _, _ => false
+  end.
+
 Inductive c20case :=
 (* chain built by ChainUnaryInterceptor / ChainStreamInterceptor on a real server
    (stream = false/true), interceptor programs bs, handler error herr; observed
@@ -153,7 +214,16 @@ Inductive c20case :=
 (* end to end through a real client and a real server: chain bs on the server
    ([] = no interceptor), optional single interceptor on the client; what the
    interceptors logged and what the peer (the caller) observes *)
-| CChainE2E (stream : bool) (cbeh : option beh) (bs : list beh) (herr : Z) (obs : cres).
+| CChainE2E (stream : bool) (cbeh : option beh) (bs : list beh) (herr : Z) (obs : cres)
+(* one RPC as seen by handler number h of nh installed ones: the exit of the
+   model it took, whether the RPC finished and succeeded at that role (observed
+   by the rig independently of the events), the events recorded under the RPC's
+   tag, the number of events of this scenario that carried no / a foreign tag *)
+| CStats (x : sexit) (nh h : Z) (finished succ : bool) (obs : list sev) (untagged : Z)
+(* connection events of one handler: served connection (one Serve call, its exit)
+   or client connection (number of Close calls) *)
+| CConnS (x : serve_exit) (obs : list Stats.cev)
+| CConnC (closes : nat) (obs : list Stats.cev).
 
 Definition check (c : c20case) : list nat :=
   match c with
@@ -178,6 +248,16 @@ Definition check (c : c20case) : list nat :=
       let norm (x : cres) : cres := let '(r, e, l) := x in ((if e =? 0 then r else []), e, l) in
       (if cres_eqb (norm (f false cbeh bs herr)) obs then [] else [1%nat]) ++
       (if cres_eqb (norm (f true cbeh bs herr)) obs then [] else [2%nat])
+  | CStats x nh h finished succ obs untagged =>
+      (if list_eqb sev_eqb (model_events x) obs then [] else [1%nat]) ++
+      (if spec_end succ obs then [] else [5%nat]) ++
+      (if spec_shape x finished obs then [] else [6%nat]) ++
+      (if untagged =? 0 then [] else [7%nat])
+  | CConnS x obs =>
+      (if list_eqb conn_eqb (serve_events x) obs then [] else [1%nat]) ++
+      (if list_eqb conn_eqb [TagConn; ConnBegin true; ConnEnd true] obs then [] else [8%nat])
+  | CConnC closes obs =>
+      (if list_eqb conn_eqb (client_conn_events closes) obs then [] else [1%nat])
   end.
 
 Fixpoint find_bad_from (i : nat) (cs : list c20case) : list (nat * list nat) :=
